@@ -27,6 +27,7 @@ func astFacts(out io.Writer) {
 	var writes []write
 	var recvWrites [][3]string
 	var jsonCallers [][2]string
+	var shutdownCalls [][2]string // (function, rendered call) for Shutdown / Close calls in package server
 	for _, d := range dirs {
 		fset := token.NewFileSet()
 		pkgs, err := parser.ParseDir(fset, filepath.Join(root, d), func(fi os.FileInfo) bool { return !strings.HasSuffix(fi.Name(), "_test.go") }, 0)
@@ -102,6 +103,17 @@ func astFacts(out io.Writer) {
 							if se, ok := t.Fun.(*ast.SelectorExpr); ok && se.Sel.Name == "SetJSONOutput" {
 								jsonCallers = append(jsonCallers, [2]string{pname, fd.Name.Name})
 							}
+							if se, ok := t.Fun.(*ast.SelectorExpr); ok && pname == "server" &&
+								(se.Sel.Name == "Shutdown" || se.Sel.Name == "Close" || se.Sel.Name == "RegisterOnShutdown" || se.Sel.Name == "SetKeepAlivesEnabled") {
+								args := ""
+								for i, a := range t.Args {
+									if i > 0 {
+										args += ", "
+									}
+									args += callString(a)
+								}
+								shutdownCalls = append(shutdownCalls, [2]string{fd.Name.Name, exprString(se.X) + "." + se.Sel.Name + "(" + args + ")"})
+							}
 						}
 						return true
 					})
@@ -138,7 +150,28 @@ func astFacts(out io.Writer) {
 		}
 		fmt.Fprintf(out, "(%q, %q)", w[0], w[1])
 	}
+	fmt.Fprintf(out, "]\n\n/-- (function, call) for every Shutdown / Close / RegisterOnShutdown / SetKeepAlivesEnabled call in package server -/\ndef serverShutdownCalls : List (String × String) :=\n  [")
+	for i, w := range shutdownCalls {
+		if i > 0 {
+			fmt.Fprint(out, ", ")
+		}
+		fmt.Fprintf(out, "(%q, %q)", w[0], w[1])
+	}
 	fmt.Fprintf(out, "]\n\n")
+}
+
+func callString(e ast.Expr) string {
+	if c, ok := e.(*ast.CallExpr); ok {
+		args := ""
+		for i, a := range c.Args {
+			if i > 0 {
+				args += ", "
+			}
+			args += callString(a)
+		}
+		return exprString(c.Fun) + "(" + args + ")"
+	}
+	return exprString(e)
 }
 
 func exprString(e ast.Expr) string {
